@@ -9,6 +9,7 @@ import z3
 from pyvc import contract as C
 from pyvc.contract import Contract, LoopSpec, register, schema
 from pyvc.npmodel import TArr
+from pyvc.plug_c16 import TByStep, TStepUnion
 from pyvc.values import TBool, TFun, TInt, TList, TNone, TObj, TOpt, TReal, TTuple
 
 FD = "gemseo.utils.derivatives.finite_differences.FirstOrderFD"
@@ -16,6 +17,7 @@ BASE = "gemseo.utils.derivatives.base_gradient_approximator.BaseGradientApproxim
 DS = "gemseo.algos.design_space.DesignSpace"
 F1, F2, I1 = TArr("f", 1), TArr("f", 2), TArr("i", 1)
 FP = TFun("f_pointer", [F1], F1)
+STEP = TStepUnion()
 Ffun = z3.Function("f_pointer", F1.sort(), F1.sort())
 
 schema(DS + "#fd", {"dimension": TInt})
@@ -53,22 +55,32 @@ class GeneratePerturbationsNoDesignSpace(Contract):
     prop = ("C16",)
     self_schema = FD + "#nods"
     numpy = "precise"
-    params = {"input_values": F1, "input_indices": TList(TInt), "step": TReal}
-    returns = TTuple(F2, TReal)
+    c16 = True
+    params = {"input_values": F1, "input_indices": TList(TInt), "step": STEP}  # one global step, or one step per perturbation
+    returns = TByStep(TTuple(F2, TReal), TTuple(F2, F1))
 
     def requires(self, c):
-        return idx_ok(c.old.input_indices, ln(c.old.input_values))
+        out = idx_ok(c.old.input_indices, ln(c.old.input_values))
+        if not z3.is_expr(c.old.step):
+            out.append(("one-step-per-perturbation", ln(c.old.step) == c.old.input_indices.n))
+        return out
 
     def ensures(self, c):
         x, idx, h = c.old.input_values, c.old.input_indices, c.old.step
         P, s = c.result_value
         Pv = C.View(c._new_heap, P, c.st)
         i, k = z3.Int("i!gp"), z3.Int("k!gp")
+        hk = h if z3.is_expr(h) else el(h, k)
+        if z3.is_expr(h):
+            returned = ("step-returned", s.term == h)
+        else:
+            Sv = C.View(c._new_heap, s, c.st)
+            returned = ("step-returned", z3.And(ln(Sv) == idx.n, z3.ForAll([k], z3.Implies(z3.And(0 <= k, k < idx.n), el(Sv, k) == el(h, k)))))
         return [
             ("shape", z3.And(ln(Pv, 0) == ln(x), ln(Pv, 1) == idx.n)),
             ("columns", z3.ForAll([i, k], z3.Implies(z3.And(0 <= i, i < ln(x), 0 <= k, k < idx.n),
-                                                      el(Pv, i, k) == el(x, i) + z3.If(i == idx.elems[k], h, z3.RealVal(0))))),
-            ("step-returned", s.term == h),
+                                                      el(Pv, i, k) == el(x, i) + z3.If(i == idx.elems[k], hk, z3.RealVal(0))))),
+            returned,
         ]
 
 
@@ -102,22 +114,27 @@ class ComputeGrad(Contract):
     prop = ("C16",)
     self_schema = FD + "#nods"
     numpy = "precise"
-    params = {"input_values": F1, "input_perturbations": F2, "step": TReal}
+    c16 = True
+    params = {"input_values": F1, "input_perturbations": F2, "step": STEP}  # one global step, or one step per perturbation
     returns = TList(F1)
     loops = {0: LoopSpec(anchor="range(n_perturbations)", modifies=("gradient",), local_types={"gradient": TList(F1)}, inv=_grad_inv)}
 
     def requires(self, c):
         x, P = c.old.input_values, c.old.input_perturbations
         v = z3.Const("v!fm", F1.sort())
-        return [("perturbation-shape", ln(P, 0) == ln(x)),
-                ("output-dimension-is-fixed", z3.ForAll([v], z3.And(F1.dim(Ffun(v)) == z3.Int("m_out"), z3.Int("m_out") >= 0)))]
+        out = [("perturbation-shape", ln(P, 0) == ln(x)),
+               ("output-dimension-is-fixed", z3.ForAll([v], z3.And(F1.dim(Ffun(v)) == z3.Int("m_out"), z3.Int("m_out") >= 0)))]
+        if not z3.is_expr(c.old.step):
+            out.append(("one-step-per-perturbation", ln(c.old.step) == ln(P, 1)))
+        return out
 
     def ensures(self, c):
         x, P, h = c.old.input_values, c.old.input_perturbations, c.old.step
         g = c.result
         j = z3.Int("j!cg")
+        hj = h if z3.is_expr(h) else el(h, j)
         return [("one-row-per-perturbation", g.n == ln(P, 1)),
-                ("difference-quotients", z3.ForAll([j], z3.Implies(z3.And(0 <= j, j < g.n), quotient_ok(g.elems[j], x, P, j, h))))]
+                ("difference-quotients", z3.ForAll([j], z3.Implies(z3.And(0 <= j, j < g.n), quotient_ok(g.elems[j], x, P, j, hj))))]
 
 
 @register
